@@ -84,6 +84,9 @@ fn explore_scenario(rep: &mut Reporter, scn: &Scn, extra: &Extra, bound: usize, 
         for (t, m) in &r.panics {
             problems.push((format!("sched:panic:{}", t.split(' ').next().unwrap_or(t)), format!("thread {t} panicked: {m}"), prefix.to_vec()));
         }
+        if r.outcome == Outcome::Completed && !r.alive_at_main_exit.is_empty() {
+            problems.push(("sched:main-ended-before-worker-threads".into(), format!("threads still running when the main thread ended (their results may be cut off): {:?}", r.alive_at_main_exit), prefix.to_vec()));
+        }
         // arrival order at the statistics channel = sender ids of the channel with the most messages
         let mut per_chan: BTreeMap<usize, Vec<usize>> = BTreeMap::new();
         for (t, c) in &r.send_log {
@@ -203,9 +206,14 @@ fn toml_string(c: &StatsCollector) -> String {
 }
 
 fn closure_shape(rep: &mut Reporter, lens_packets: &[usize], mute: bool) -> (u64, usize) {
+    closure_shape_x(rep, lens_packets, mute, true)
+}
+
+/// `its`: the statistics announce an ITS run with its layers / staves; otherwise another detector (no stave data)
+fn closure_shape_x(rep: &mut Reporter, lens_packets: &[usize], mute: bool, its: bool) -> (u64, usize) {
     let seqs: Vec<Vec<StatType>> = lens_packets.iter().enumerate().map(|(l, n)| sender_sequence(l as u8, *n, 0, mute)).collect();
     let lens: Vec<usize> = seqs.iter().map(|s| s.len()).collect();
-    let prelude = vec![StatType::SystemId(SystemId::ITS), StatType::RdhVersion(7), StatType::LayerStaveSeen { layer: 0, stave: 4 }, StatType::LayerStaveSeen { layer: 0, stave: 5 }, StatType::LayerStaveSeen { layer: 0, stave: 6 }];
+    let prelude = if its { vec![StatType::SystemId(SystemId::ITS), StatType::RdhVersion(7), StatType::LayerStaveSeen { layer: 0, stave: 4 }, StatType::LayerStaveSeen { layer: 0, stave: 5 }, StatType::LayerStaveSeen { layer: 0, stave: 6 }] } else { vec![StatType::SystemId(SystemId::MFT), StatType::RdhVersion(7)] };
     let mut outs: BTreeMap<String, Vec<usize>> = BTreeMap::new();
     let mut n = 0u64;
     // enumerate merges without materialising them all
@@ -244,9 +252,9 @@ fn closure_shape(rep: &mut Reporter, lens_packets: &[usize], mute: bool) -> (u64
         let a = it.next().unwrap();
         let b = it.next().unwrap();
         rep.violation(Violation {
-            signature: format!("closure:output-depends-on-arrival-order:{}", if mute { "muted" } else { "unmuted" }),
+            signature: format!("closure:output-depends-on-arrival-order:{}{}", if mute { "muted" } else { "unmuted" }, if its { "" } else { ":not-its" }),
             description: format!("{} distinct serialised statistics over the {} order-preserving merges of sender sequences {:?} (errors per sender); e.g. {}", outs.len(), n, lens, first_diff_line(a.0.replace(',', ",\n").as_bytes(), b.0.replace(',', ",\n").as_bytes())),
-            replay: json!({"shape_packets": lens_packets, "mute": mute, "merge_a": a.1, "merge_b": b.1}),
+            replay: json!({"shape_packets": lens_packets, "mute": mute, "its": its, "merge_a": a.1, "merge_b": b.1}),
         });
     }
     (n, outs.len())
@@ -372,6 +380,15 @@ fn scenarios(tier: Tier) -> Vec<(String, Scn, Extra)> {
         let (_, bytes) = streams::multi_link(2, 2, 0, true, false);
         scenarios.push(("AllIts with --filter-link 0 and an (ignored) -o file, 2 links x 2 HBFs, E10+E11 on every RDH, batch 2".into(), Scn { mode: Mode::AllItsIgnoredOutput(0), mute: false, max_errors: 0, signal: false, cap: 2, input: Arc::new(bytes), scratch: scratch(), toml: false }, Extra::default()));
     }
+    // a detector other than ITS (system id 36 in every RDH), `check all`: no layer / stave bookkeeping takes part
+    {
+        let (_, mut bytes) = streams::multi_link(2, 1, 0, true, false);
+        let (walked, _) = fp_model::stream::walk(&bytes);
+        for w in &walked {
+            bytes[w.offset as usize + 5] = 36;
+        }
+        scenarios.push(("All mute=false 2 links x 1 HBF of system id 36 (not ITS), E10+E11 on every RDH, batch 2".into(), Scn { mode: Mode::All, mute: false, max_errors: 0, signal: false, cap: 2, input: Arc::new(bytes), scratch: scratch(), toml: false }, Extra::default()));
+    }
     // small worlds: every bounded queue holds one element, so that full queues (and whatever the code does about
     // them) take part; batches of 1 packet keep the reader ahead of the analysis
     for (mode, links, hbfs) in [(Mode::AllIts, 2usize, 2usize), (Mode::All, 3, 1)] {
@@ -412,7 +429,7 @@ fn replay_file(path: &str) -> i32 {
         let mute = r["mute"].as_bool().unwrap_or(false);
         std::env::set_var("VERIF_REPLAY_SIG", &sig);
         let mut rep = Reporter::new("C05", Tier::Quick, "model_checking");
-        let (n, distinct) = closure_shape(&mut rep, &shape, mute);
+        let (n, distinct) = closure_shape_x(&mut rep, &shape, mute, r["its"].as_bool().unwrap_or(true));
         say!("REPLAY: {n} merges of shape {:?} (mute {mute}) give {distinct} distinct outputs", shape);
         return if distinct > 1 { 1 } else { 0 };
     }
@@ -523,6 +540,12 @@ pub fn run(tier: Tier, replay: Option<String>, part: Option<usize>) -> i32 {
             let (n, distinct) = closure_shape(&mut rep, sh, mute);
             merges += n;
             shapes_json.push(json!({"packets_per_sender": sh, "mute": mute, "merges": n, "distinct_outputs": distinct}));
+            // the same merges with the statistics of a detector other than ITS (small shapes)
+            if sh.iter().sum::<usize>() <= 6 {
+                let (n, distinct) = closure_shape_x(&mut rep, sh, mute, false);
+                merges += n;
+                shapes_json.push(json!({"packets_per_sender": sh, "mute": mute, "system": "MFT", "merges": n, "distinct_outputs": distinct}));
+            }
         }
     }
     // (c)
